@@ -169,6 +169,12 @@ def evolve_oracle(args):
         st = MPS(L, **kw)
         run_solver(args["reuse_after"], 1, L, kw, H, None, specs[:1], T=0.04, dt=0.02, state_obj=st)
         hist = f", initial-state object reused after a {args['reuse_after']} run"
+    if args.get("real_dtype") and st is None:
+        # a legal input of another dtype: the same state with real-valued site tensors (as a user builds it from a real decomposition)
+        base = MPS(L, **kw)
+        if all(np.allclose(np.imag(t), 0.0) for t in base.tensors):
+            st = MPS(L, tensors=[np.ascontiguousarray(np.real(t)).astype(np.float64) for t in base.tensors], physical_dimensions=[2] * L)
+            hist = ", initial state with real-dtype site tensors"
     res = run_solver(solver, order, L, kw, H, nm, specs, T=T, dt=dt, num_traj=ntraj, state_obj=st)
     v0 = dense.mps_dense(MPS(L, **kw))
     v0 = v0 / np.linalg.norm(v0)
@@ -290,7 +296,11 @@ def search(ctx):
             procs.insert(0, {"name": "lowering", "sites": [(procs[0]["sites"][0] + 1) % L], "strength": 0.0})
         plan.append(dict(L=L, solver=solver, order=order, state=kw, ham=str(ctx.rng.choice(["ising", "heisenberg", "inhomogeneous", "inhomogeneous"])), hseed=int(ctx.rng.integers(0, 10**6)),
                          J=float(ctx.rng.uniform(0.5, 1.2)), g=float(ctx.rng.uniform(0.3, 0.9)), procs=procs,
-                         reuse_after=[None, "Lindblad", None, "MCWF", None, "TJM"][k % 6]))
+                         reuse_after=[None, "Lindblad", None, "MCWF", None, "TJM"][k % 6], real_dtype=bool(k % 6 in (0, 2, 4))))
+    # directed: the same basis state with real-dtype tensors through every back-end, with and without noise
+    for k, (solver, order) in enumerate(SOLVERS):
+        plan.append(dict(L=3, solver=solver, order=order, state={"state": "basis", "basis_string": "100"}, ham="ising", hseed=0, J=1.0, g=0.7,
+                         procs=[{"name": "lowering", "sites": [0], "strength": 0.3}] if solver == "Lindblad" else [], reuse_after=None, real_dtype=True))
     for a in plan:
         try:
             why = evolve_oracle(a)
